@@ -419,6 +419,51 @@ class Sib:
         self.cmp("SIB-2", f"rhf: _calc_{which}_restricted == _calc_{which} for equal spin blocks",
                  a.result, b.result, b.fi, hyp, what="hypothesis walker_up == walker_dn")
 
+    def exchange_within_one_spin(self):
+        """SIB-2 (dependence form): an exchange contraction squares one intermediate against its own transpose
+        (x * x.T summed).  For the collinear single-determinant trials (rhf, uhf) the two spin sectors do not exchange:
+        the squared intermediate belongs to one spin, i.e. it does not depend on both walker blocks.  (Coulomb terms are
+        bilinear in the spin-summed intermediate and are not of this form.)"""
+        from ..symex import func_name, match_vmap, mk, strip_wrappers, subterms
+        from .match import m_binop
+        for cls in ("rhf", "uhf"):
+            e = self.E(cls, "_calc_energy")
+            found = []
+
+            def transposed_of(a, b) -> bool:
+                b = strip_wrappers(b)
+                a = strip_wrappers(a)
+                if b.op == "attr" and b.args[1] in ("T", "mT") and strip_wrappers(b.args[0]) is a:
+                    return True
+                if b.op == "call" and (func_name(b) or "").split(".")[-1] in ("swapaxes", "transpose", "matrix_transpose") \
+                        and len(b.args) >= 2 and strip_wrappers(b.args[1]) is a:
+                    return True
+                return False
+            for x in subterms(e.result):
+                vm = match_vmap(x) if x.op == "call" else None
+                if vm is not None and vm[0].op == "closure" and len(vm[2]) == 1:
+                    el = mk("vmap_elem", vm[2][0], 0)
+                    body = strip_wrappers(self.ev.open_closure(vm[0], [el]))
+                    mb = m_binop(body, "*")
+                    if mb is not None and (transposed_of(mb[0], mb[1]) or transposed_of(mb[1], mb[0])) and \
+                            (strip_wrappers(mb[0]) is el or strip_wrappers(mb[1]) is el):
+                        found.append(vm[2][0])
+                    continue
+                mb = m_binop(x, "*") if x.op == "binop" else None
+                if mb is not None and (transposed_of(mb[0], mb[1]) or transposed_of(mb[1], mb[0])):
+                    a_ = strip_wrappers(mb[0])
+                    found.append(a_ if transposed_of(mb[0], mb[1]) else strip_wrappers(mb[1]))
+            if not found:
+                self.ctx.rep.note(f"{cls}._calc_energy: no exchange contraction of the form x * x.T found; the one-spin "
+                                  f"exchange rule is not applied")
+                continue
+            mixed = [f for f in found if any(y is sym("walker_up") for y in subterms(f)) and
+                     any(y is sym("walker_dn") for y in subterms(f))]
+            self.ctx.ob("SIB-2", f"{cls}._calc_energy: each exchange contraction x * x.T squares an intermediate of one spin",
+                        not mixed, f"{len(found)} exchange contraction(s)" if not mixed else
+                        f"{show(mixed[0], maxdepth=3)[:90]} depends on both walker blocks: its square contains an exchange "
+                        f"term between up and down electrons", e.fi)
+
     # ----------------------------------------------------------- multislater
     def multislater_restricted_vs_unrestricted(self):
         a = self.E("multislater", "_calc_overlap_restricted")
